@@ -418,6 +418,21 @@ func checkCatalog(n *Node, fs *simos.FS, res *Result, seed uint64, when string, 
 	if err2 != nil {
 		return viol("years-error", "years-error|"+when, when+": "+err2.Error())
 	}
+	// the catalog is consistent with itself: every bucket it lists can be looked
+	// up by its key (the write path does exactly that, and treats a failed lookup
+	// as "bucket does not exist yet")
+	for _, k := range live {
+		var lerr error
+		if ge := guard(func() error {
+			_, lerr = n.Cat.GetLatestTimeBucketInfoFromKey(io.NewTimeBucketKey(k))
+			return nil
+		}); ge != nil {
+			lerr = ge
+		}
+		if lerr != nil {
+			return viol("live-lookup-fails", "live-lookup-fails|"+when, fmt.Sprintf("%s: the server lists bucket %s but cannot look it up by key: %s", when, k, firstLine(lerr.Error())))
+		}
+	}
 	for _, k := range disk {
 		sort.Strings(dyears[k])
 		if !sameSet(lyears[k], dyears[k]) {
@@ -492,6 +507,11 @@ func c17Engine() *Engine {
 		syms := []string{"A", "B"}
 		tfs := []string{"1Min", "1H"}
 		attrs := []string{"X", "Y"}
+		if r.Pct(50) {
+			// names one of which is a prefix of the other (path-prefix confusions)
+			syms = []string{"A", "AB"}
+			attrs = []string{"X", "XY"}
+		}
 		schemas := [][]Col{{{Name: "Id", Typ: "i8"}, {Name: "V", Typ: "f4"}}, {{Name: "Id", Typ: "i8"}, {Name: "W", Typ: "i4"}, {Name: "Z", Typ: "f8"}}}
 		concurrent := r.Pct(50)
 		nclients := 1
